@@ -7,6 +7,8 @@ import (
 	"golang.org/x/tools/go/ssa"
 )
 
+var extraCmds = map[string]func([]string) int{}
+
 func main() {
 	if len(os.Args) < 2 {
 		fmt.Println("usage: fvc vc|check|dump ...")
@@ -19,6 +21,9 @@ func main() {
 		os.Exit(cmdCheck(os.Args[2:]))
 	case "dump":
 		os.Exit(cmdDump(os.Args[2:]))
+	}
+	if f, ok := extraCmds[os.Args[1]]; ok {
+		os.Exit(f(os.Args[2:]))
 	}
 	fmt.Println("unknown command", os.Args[1])
 	os.Exit(2)
@@ -52,3 +57,16 @@ func cmdDump(args []string) int {
 	return 0
 }
 
+
+func init() {
+	extraCmds["ovtest"] = func(args []string) int {
+		// fvc ovtest <pkgrel> <testfile> <TestName>
+		cfg := RunConfig{Repo: envOr("FVC_REPO", "/repo"), Verif: envOr("FVC_VERIF", "/verif")}
+		ok, out := runOverlayTest(cfg, args[0], args[1], args[2], 120)
+		fmt.Print(out)
+		if ok {
+			return 0
+		}
+		return 1
+	}
+}
